@@ -19,7 +19,7 @@ func init() {
 	register(&Property{
 		ID:          "C15",
 		Run:         runC15,
-		Explanation: "Decides the structural clauses of a converging, idempotent, atomic import: (R1) field coverage — every field of config.Pipeline/Connector/Processor/DLQ is produced by the exporter, applied by the create action, applied by the update action or classified immutable (⇒ delete+create), and described by the differ; (R2) no action iterates an instance's live reference list while removing from it; (R3) on a failed action exactly the executed prefix actions[:failed+1] is reversed and rolled back, delete actions are the exact inverse of create actions, and the order-sensitive reference lists are compared position by position; (R4) importPipeline is reached only through the public Import, start-up provisioning and transactionalImport, the latter committing only after a successful import with a deferred discard; (R5) a connector is replaced (delete+create, losing its position) only when a field outside the mutable class differs, and no update path writes Instance.State.",
+		Explanation: "Decides the structural clauses of a converging, idempotent, atomic import: (R1) field coverage — every field of config.Pipeline/Connector/Processor/DLQ is produced by the exporter, applied by the create action, applied by the update action or classified immutable (⇒ delete+create), and described by the differ; (R2) no action iterates an instance's live reference list while removing from it; (R3) on a failed action exactly the executed prefix actions[:failed+1] is reversed and rolled back, delete actions are the exact inverse of create actions, and the order-sensitive reference lists are compared position by position; (R4) importPipeline is reached only through the public Import, start-up provisioning and transactionalImport, the latter committing only after a successful import with a deferred discard; (R5) a connector is replaced (delete+create, losing its position) only when a field outside the mutable class differs, and no update path writes Instance.State. Rules added later (after independent seeded changes and defect hunts) are not all enumerated here: every armed rule is listed with its description, kind and instance count under coverage.rules.",
 		NotDecided:  []string{"convergence over all pairs of configurations (needs execution)", "semantics of cmp.Equal and of the services the actions call"},
 		Assumptions: []string{"cmpopts.IgnoreFields ignores exactly the named fields"},
 	})
